@@ -86,6 +86,20 @@ class Runner:
                             self.broken.append(("correspondence",
                                                 "model and implementation differ on %d of %d cases of %s; first: %s" % (
                                                     bad, cases, fname, (mism[0] if mism else mo.strip()[-300:]))))
+                for ptest, pfile in g.get("post", []):
+                    rc2, out2 = ck.run_harness(ptest, self.outdir, self.seed, self.tier, self.log, timeout=g.get("timeout", 1500))
+                    path = os.path.join(self.outdir, pfile)
+                    txt = open(path, errors="replace").read() if os.path.exists(path) else ""
+                    m = re.search(r"SUMMARY cases=(\d+) mismatches=(\d+)", txt)
+                    if rc2 != 0 or not m:
+                        self.broken.append(("harness-run", "post step %s failed: %s" % (ptest, out2.strip()[-800:])))
+                        continue
+                    total_cases += int(m.group(1))
+                    if int(m.group(2)) != 0:
+                        mm = [l for l in txt.splitlines() if l.startswith("MISMATCH")]
+                        mismatches += mm
+                        self.broken.append(("correspondence", "byte-level interpretation of the model differs from the "
+                                            "implementation on %s of %s cases; first: %s" % (m.group(2), m.group(1), mm[0] if mm else "?")))
             self.collect_oracles()
         self.total_cases = total_cases
         self.mismatches = mismatches
